@@ -818,8 +818,16 @@ func (c *Ctx) checkSenderHeader() {
 		// cut the edges on which the head map is known nil and stays nil: handled by treating the
 		// comparison `head != nil` false edge as satisfied when no MapUpdate follows... we model it
 		// by cutting nil edges of map-typed nil tests.
-		cut := nilMapEdges(t.fn)
-		found, _ := core.PathAvoiding(t.fn, nil, func(in ssa.Instruction) bool { return in == t.in }, core.Deep(isSenderWrite, 2, nilMapEdges), cut)
+		// the function the target belongs to may be one phase of a split function: search from the
+		// entry of the function the phases belong to, entering the phases
+		root := c.phaseRoot(t.fn)
+		cut := map[core.Edge]bool{}
+		for f := range c.regionOf(root) {
+			for e := range nilMapEdges(f) {
+				cut[e] = true
+			}
+		}
+		found, _ := core.PathAvoidingX(root, nil, func(in ssa.Instruction) bool { return in == t.in }, core.Deep(isSenderWrite, 2, nilMapEdges), cut)
 		r.Check(!found, "C11.5-sender-header", fk(t.fn)+": head[\"sender\"] fixed before "+t.nm, c.pos(t.in),
 			"every path with a non-nil head assigns sender from the session uid or deletes it", "a client-supplied \"sender\" header can survive to "+t.nm)
 	}
